@@ -1,7 +1,7 @@
 """C05 Failures get the standard error codes and rejected requests run nothing."""
 import ast
 from vlib.model import AnalysisError, dump, kwarg, call_name, FuncInfo
-from vlib.cfg import cfg_of, node_calls
+from vlib.cfg import cfg_of, node_calls, node_exprs
 from vlib.flow import dominators
 from vlib import prov, q, shape, spec
 
@@ -260,6 +260,12 @@ def check(ck):
     for fi in prog.module_funcs(SRV):
         g = cfg_of(fi)
         for n in g.live_nodes():
+            for e in node_exprs(n):
+                for sub in ast.walk(e):
+                    # self.instance.<literal name>: a lookup by a fixed name, same standing as getattr(self.instance, "<literal>")
+                    if isinstance(sub, ast.Attribute) and isinstance(sub.value, ast.Attribute) and sub.value.attr == "instance" \
+                            and dump(sub.value.value) == "self":
+                        n3 += 1
             for c in node_calls(n):
                 if isinstance(c.func, ast.Name) and c.func.id in ("getattr", "hasattr") and len(c.args) >= 2:
                     t = prov.origin(g, n, c.args[0])
@@ -324,8 +330,24 @@ def check(ck):
         if site.code() != spec.CODE_INTERNAL:
             continue
         t = site.origin("message", 1) or ("const", None)
-        has_exc = term_contains(t, lambda x: isinstance(x, tuple) and (x[0] == "exc" or (
-            x[0] == "attr" and x[2] == "format_exception") or (x[0] == "attr" and x[2] == "exc_info")))
+        def exc_term(x):
+            return isinstance(x, tuple) and (x[0] == "exc" or (x[0] == "attr" and x[2] == "format_exception") or
+                                             (x[0] == "attr" and x[2] == "exc_info"))
+
+        def via_helper(x, module=site.fi.module):
+            """a call of a package function all of whose results derive from the exception being handled (sys.exc_info)"""
+            if not (isinstance(x, tuple) and x[0] == "call" and x[1][0] in ("attr", "global")):
+                return False
+            try:
+                r = prog.resolve(module, ast.parse(prov.show(x[1]), mode="eval").body)
+            except SyntaxError:
+                return False
+            hf = prog.funcs.get(r) if isinstance(r, str) else None
+            if hf is None:
+                return False
+            srcs = [(hn, hv) for (hn, hv) in q.return_sources(hf)]
+            return bool(srcs) and all(hv is not None and term_contains(prov.origin(cfg_of(hf), hn, hv), exc_term) for (hn, hv) in srcs)
+        has_exc = term_contains(t, exc_term) or term_contains(t, via_helper)
         ck.require(has_exc, "C05.4", "%s: -32603 message" % q.fn(site.fi), "message derives from the caught exception",
                    "the -32603 message %s does not derive from the caught exception (type and text are lost)" % prov.show(t)[:120],
                    q.loc(site.fi, site.node))
